@@ -142,6 +142,8 @@ pub(crate) mod rice;
 #[doc(hidden)]
 pub mod sigen;
 pub mod source;
+#[cfg(flacenc_verif)]
+pub mod verif;
 
 #[cfg(test)]
 pub mod test_helper;
